@@ -2,8 +2,8 @@
 From Coq Require Import Reals Arith List QArith Qcanon Lra Lia String.
 From Coquelicot Require Import Coquelicot.
 From QV.Core Require Import OF Sums Mat QcOF ROF.
-From QV.Model Require Import C12_Loss C12_Mixed C12_Dispatch.
-From QV.Proofs Require Import C12_Loss C12_Config C12_RelEntropy C12_RelEntropyR C12_Mixed C12_Dispatch.
+From QV.Model Require Import C12_Loss C12_Mixed C12_Dispatch C12_Skeleton.
+From QV.Proofs Require Import C12_Loss C12_Config C12_RelEntropy C12_RelEntropyR C12_Mixed C12_Dispatch C12_Skeleton.
 Import ListNotations.
 
 Lemma main_se_hessian_is_twice_half_and_symmetric : forall (R : CR) ns m nv (W : @wts R) (A : @mat R) (b q v : @vec R),
@@ -186,6 +186,18 @@ Lemma main_decision_tables : forall (R : CR),
 Proof. intros R. split; [intros; apply set_weights_by_mode_is_table|]. split; [intros; apply config_re_is_table|].
   split; [apply se_accepted_mode_has_branch|]. split; [apply re_accepted_mode_has_branch|].
   intros mw. split; apply option_with_weights_is_custom; cbn; auto. Qed.
+
+Lemma main_call_skeletons_are_the_state_machine : forall (R : CR) m gr he oid md (c : @wts R) k (os : @ostate R)
+    (cur : @wts R * option nat) (cm : bool) (cr : option (@vec R)) (ros : @rostate R) (w : @wts R) (st : @fstate R)
+    hasq (wr : option (@vec R)) (rs : @rstate R),
+  sem_config_fast m sk_se_bodies sk_config gr he oid (action_of md) c k os = step_fast_o m (OConfig oid md c k) os /\
+  sem_config_generic sk_config gr he oid (action_of md) c k cur = step_generic_o (OConfig oid md c k) cur /\
+  sem_config_re_fast m sk_re_bodies sk_config gr he oid (re_dispatch (Some (if cm then "custom" else "identity")%string)) cr ros
+    = step_re_fast_o m (ROConfig oid cm cr) ros /\
+  sem_setter (sem_calc_ext m (sb_calc sk_se_bodies)) (sb_setter sk_se_bodies) w st = set_direct_fast m w st /\
+  sem_setter_re (sem_calc_ew m (sb_calc sk_re_bodies)) (sb_setter sk_re_bodies) hasq wr rs = set_weights_re_fast m hasq wr rs.
+Proof. intros. split; [apply sk_config_fast|]. split; [apply sk_config_generic|]. split; [apply sk_config_re_fast|].
+  split; [apply sk_setter|apply sk_setter_re]. Qed.
 
 Lemma main_re_fast_eq_generic : forall (F : OF) (ln : F -> F) ns m (w ew : option (@vec F)) epsq epsp (A : @mat F) (p q : @vec F),
   ew_matches F m w ew (ns * m) -> (forall i, (i < ns * m)%nat -> kle F (c0 F) (q i)) ->
